@@ -18,7 +18,7 @@
    Strict = TRUE these are not excepted and TLC must report them).                       *)
 EXTENDS Cdef, SequencesExt
 
-CONSTANT Variants     \* subset of {"faithful", "strict", "susort", "nolen", "dollar"}
+CONSTANT Variants     \* subset of {"faithful", "strict", "susort", "nolen", "dollar", "negmask"}
 VARIABLE variant      \* chosen at Init, never changes.  "faithful": the transcription; "strict": the
                       \* transcription, but no documented divergence class is excepted (TLC must
                       \* report them); the others are deliberately broken transcriptions (non-vacuity)
@@ -289,7 +289,14 @@ Rz(M, W, i) ==
 
 \* _cdl_realize_global_int + realize_global_int: values of the model fit 64 bits, so the
 \* (neg, value) pair denotes the number itself
-GlobalInt(M, gi) == M.globals[gi + 1].val
+\* ffiobj_init stores  neg = (o <= 0)  and  value = o mod 2^64 ; realize_global_int gives back
+\* value (neg = 0) or (long long)value (neg = 1): the number itself for every o in [-2^63, 2^64).
+\* Variant "negmask" takes neg from the masked value read as signed: everything in [2^63, 2^64)
+\* comes out negative.
+IsBig64(v) == ~IsNeg(v) /\ DecLe("9223372036854775808", v)
+GlobalInt(M, gi) ==
+  LET v == M.globals[gi + 1].val
+  IN IF variant = "negmask" /\ IsBig64(v) THEN "-(2^64 - " \o v \o ")" ELSE v
 
 \* do_realize_lazy_struct: fields of the ctype named ctname, looked up again by name
 LazyFields(M, W, ctname) ==
@@ -324,7 +331,7 @@ OolEnum(M, W, tag) ==
                vals |-> [i \in DOMAIN e.enumerators |->
                             LET gi == Search(M.globals, e.enumerators[i])
                             IN IF gi < 0 THEN "lost" ELSE GlobalInt(M, gi)],
-               signed |-> e.prim = 21, size |-> 4 ]
+               signed |-> e.prim \in {21, 23}, size |-> IF e.prim \in {21, 22} THEN 4 ELSE 8 ]
 
 \* lib.<name> / ffi.integer_const(name): lib_build_and_cache_attr
 OolGlobal(M, W, name) ==
@@ -332,7 +339,7 @@ OolGlobal(M, W, name) ==
   IN IF gi < 0 THEN <<"no such global">>
      ELSE LET g == M.globals[gi + 1]
               op == GetOp(g.w)
-          IN CASE op \in {OP_CONSTANT_INT, OP_ENUM} -> g.val
+          IN CASE op \in {OP_CONSTANT_INT, OP_ENUM} -> GlobalInt(M, gi)
                [] op = OP_GLOBAL_VAR -> Rz(M, W, GetArg(g.w))
                [] op = OP_DLOPEN_FUNC -> LET y == Rz(M, W, GetArg(g.w)) IN IF y[1] = "fn" THEN FnP(y[2], y[3], y[4]) ELSE y
                [] OTHER -> <<"bad-global-op", op>>
